@@ -106,20 +106,20 @@ deriving Repr
 
 /-! ### Schedule / Release -/
 
+/-- The timer part of `Schedule` for a new item due at `w` (= next + Offset):
+`if s.when.IsZero() || s.when.After(nt) { s.when = nt; Stop(); Reset(0) if until <= 0 else Reset(until) }`. -/
+def schedTimer (s : St) (w : Int) : St :=
+  let rearm : Bool := match s.swhen with
+    | none => true
+    | some sw => decide (sw > w)
+  if rearm then { s with swhen := some w, timer := some (if w - s.now ≤ 0 then s.now else w) } else s
+
 def schedule (E : Env) (s : St) (id sc : Nat) (off last : Int) : St :=
   match E.nx sc last with
   | none => { s with trace := Ev.schedErr id :: Ev.onErr id :: s.trace }
   | some nt =>
     let it : Item := { whn := nt + off, id := id, sc := sc, next := nt, off := off }
-    -- `if s.when.IsZero() || s.when.After(nt)` (nt already includes the offset here)
-    let rearm : Bool := match s.swhen with
-      | none => true
-      | some w => decide (w > nt + off)
-    let s1 : St :=
-      if rearm then
-        -- Stop(); until := when - now; Reset(0) if until <= 0 else Reset(until)
-        { s with swhen := some (nt + off), timer := some (if nt + off - s.now ≤ 0 then s.now else nt + off) }
-      else s
+    let s1 := schedTimer s (nt + off)
     let q : List Item := match aget s1.index id with
       | some w => qdelete s1.queue (key id w)
       | none => s1.queue
